@@ -34,6 +34,20 @@ I64_MIN, I64_MAX = -2**63, 2**63 - 1
 def gen_valid(rng, nops):
     now = rng.choice([0, 1, 1000, 86400, 1_700_000_000, 2**40, rng.randrange(0, 2**50)])
     ops = []
+    if rng.random() < 0.15:
+        # scripted: pause, extend it while it runs (the state's start moves into the future), propagate, unpause WITHOUT
+        # propagating, pause again before the first window would have ended, propagate, then ask the group's cache around
+        # the end of the pause that is actually in force and around the end of the stale window
+        t0 = now
+        g1 = rng.choice([1, 60, 600, 1799])
+        tp = t0 + g1 + rng.choice([0, 1, 30])
+        tu = tp + rng.choice([0, 1, 60])
+        t2 = tu + rng.choice([0, 1, 100, 400])
+        tq = t2 + rng.choice([0, 1, 10])
+        ops += [(0, t0), (0, t0 + g1), (5, tp), (1, tu), (0, t2), (5, tq)]
+        for q in (t2 + 1799, t2 + 1800, t2 + 1801, t2 + 2400, t0 + 3599, t0 + 3600, t0 + g1 + 3600):
+            ops.append((6, q))
+        now = t2
     for _ in range(nops):
         r = rng.random()
         if r < 0.5:
